@@ -66,6 +66,113 @@ def sockRun (c : Conn) : List Frame → List String
   | [] => []
   | f :: fs => showSock f (step c f).2 :: sockRun (step c f).1 fs
 
+
+/-! ### arm tags (coverage only): which branches of the model an op took, with guards at their boundary -/
+
+def tyName : CType → String
+  | .msg => "msg" | .opn => "opn" | .clo => "clo"
+
+def finName : Fin → String
+  | .final => "F" | .intermediate => "C" | .abort => "A"
+
+def rkName : ReqKind → String
+  | .getEndpoints => "ge" | .createSession => "cs" | .openIssue => "oi" | .openRenew => "or" | .close => "cl" | .junk => "junk"
+
+/-- position of `x` relative to a limit `lim` (0 = no limit): the comparison at its boundary -/
+def rel (pre : String) (x lim : Nat) : String :=
+  if lim = 0 then pre ++ "-nolimit"
+  else if x + 1 < lim then pre ++ "-lt"
+  else if x + 1 = lim then pre ++ "-eq-limit-minus1"
+  else if x = lim then pre ++ "-eq-limit"
+  else if x = lim + 1 then pre ++ "-eq-limit-plus1"
+  else pre ++ "-gt"
+
+def chunkArms (c : Conn) (k : Chunk) : List String :=
+  let st := if c.issued then "open" else "noopen"
+  let base := [s!"ch-{tyName k.ty}-{finName k.fin}-{st}"]
+  if k.ty = .msg ∧ ¬ c.issued then base ++ ["guard-msg-before-open"]
+  else if k.fin = .abort then base ++ [if c.pending.isEmpty then "abort-empty" else "abort-nonempty"]
+  else if k.mal = .badSize then base ++ ["mal-badsize"]
+  else if k.ty = .opn ∧ k.mal = .badPolicy then base ++ ["mal-badpolicy-opn"]
+  else
+    let m := if k.mal = .badPolicy then ["mal-badpolicy-ignored"] else []
+    -- `pending.len() >= max`: compare len with the limit; `bytes + size > max`: compare the sum
+    let cnt := rel "count" (c.pending.length + 1) c.maxChunks
+    let base := base ++ m ++ [cnt]
+    if c.maxChunks > 0 ∧ c.pending.length ≥ c.maxChunks then base
+    else
+      let byt := rel "bytes" (c.bytes + k.size) c.maxMsg
+      let base := base ++ [byt]
+      if c.maxMsg > 0 ∧ c.bytes + k.size > c.maxMsg then base
+      else
+        let rk := if c.pending.isEmpty then k.rk else c.curRk
+        let base := base ++ [if c.pending.isEmpty then "stream-new" else "stream-continues"]
+        let pend := c.pending ++ [(k.ty, k.ci, k.size)]
+        let mixed := if pend.any (fun p => p.1 ≠ k.ty) then ["mixed-types"] else []
+        if k.fin = .intermediate then base ++ ["stored"] ++ mixed
+        else
+          let base := base ++ mixed ++ [if pend.length = 1 then "final-single" else "final-multi"]
+          match recv c.lastSeq c.chanId (pend.map fun p => some p.2.1) with
+          | .err e => base ++ [s!"recv-{e}", if c.chanId = 0 then "chan-unset" else "chan-set"]
+          | .panic => base ++ ["recv-panic"]
+          | .ok _ =>
+            let base := base ++ ["recv-ok", if c.chanId = 0 then "chan-unset" else "chan-set"]
+            let first := match pend with
+              | p :: _ => p.2.1.seq
+              | [] => 0
+            let base := base ++ [if first = c.lastSeq + 1 then "seq-next" else "seq-gap"]
+            let body := (pend.map fun p => p.2.2 - overhead c.lens p.1).sum
+            let len := reqLen c.lens rk
+            let dec :=
+              if rk = .junk then (if body < 2 then "dec-junk-lt2" else "dec-junk")
+              else if body < 3 then "dec-lt3"
+              else if body = 3 then "dec-eq3"
+              else if body = 4 ∧ 4 < len then "dec-eq4"
+              else if body + 1 < len then "dec-short"
+              else if body + 1 = len then "dec-eq-len-minus1"
+              else if body = len then "dec-eq-len"
+              else "dec-gt-len"
+            let base := base ++ [dec]
+            match decodeErr c.lens rk body with
+            | some _ => base
+            | none =>
+              let firstTy := headTy k.ty pend
+              let d := match k.ty with
+                | .clo => s!"disp-clo-{rkName rk}"
+                | .opn =>
+                  match rk with
+                  | .openIssue => if firstTy ≠ .opn then "disp-opn-first-not-opn"
+                      else if c.issued then "disp-issue-again" else "disp-issue-first"
+                  | .openRenew => if firstTy ≠ .opn then "disp-opn-first-not-opn"
+                      else if c.issued then "disp-renew" else "disp-renew-before-issue"
+                  | r => s!"disp-opn-wrong-{rkName r}"
+                | .msg =>
+                  match rk with
+                  | .getEndpoints => "disp-msg-ge"
+                  | .createSession => if c.sessions ≥ 5 then "disp-msg-cs-too-many" else
+                      (if c.sessions = 4 then "disp-msg-cs-fifth" else "disp-msg-cs")
+                  | r => s!"disp-msg-unsupported-{rkName r}"
+              base ++ [d]
+
+def frameArms (c : Conn) : Frame → List String
+  | f =>
+    match c.phase with
+    | .closed => ["phase-closed"]
+    | .waitingHello =>
+      match f with
+      | .hel .valid => ["hel-valid"]
+      | .hel .badUrl => ["hel-badurl"]
+      | .hel .smallBuffers => ["hel-smallbuf"]
+      | .hel .protocol1 => ["hel-proto1"]
+      | .other => ["prehello-other"]
+      | .chunk k => [s!"prehello-chunk-{tyName k.ty}"]
+    | .processing =>
+      match f with
+      | .hel _ => [if c.pending.isEmpty then "second-hello" else "second-hello-pending"]
+      | .other => ["nonchunk-frame"]
+      | .chunk k => chunkArms c k
+
+
 def dstep (c : Conn) (toks : List String) : Conn × String :=
   match toks with
   | ["reset", "conn", mc, mm, ov, ge, cs, opn, clo] =>
@@ -86,9 +193,10 @@ def dstep (c : Conn) (toks : List String) : Conn × String :=
   | _ =>
     match parseFrame? c.lens toks with
     | some f =>
+      let tags := " @@ " ++ ",".intercalate (frameArms c f)
       match step c f with
-      | (c', .ignored) => (c', "err closed")
-      | (c', o) => (c', showOut o ++ " " ++ tail c')
+      | (c', .ignored) => (c', "err closed" ++ tags)
+      | (c', o) => (c', showOut o ++ " " ++ tail c' ++ tags)
     | none => (c, "bad-op")
 
 def conn0 : Conn := Conn.init { ovOpn := 79, ge := 0, cs := 0, opn := 0, clo := 0 } 0 0
